@@ -8,7 +8,7 @@
    `poolacct_src_<pool>` (does the pool listen to / count a one-way stream) and `poolacct_src_destroy_oneway` (a one-way client
    stream is destroyed once written) are READ FROM THE SOURCE on every run. *)
 From Coq Require Import List ZArith Bool.
-From MV Require Import Lib.Interleave Model.Pool Model.PoolAcct Model.PoolH2 Model.PoolH2Race Gen.PoolSrc Proofs.Pool Proofs.PoolAcct Proofs.PoolH2 Proofs.PoolH2Race.
+From MV Require Import Lib.Interleave Model.Pool Model.PoolAcct Model.PoolH2 Model.PoolH2Race Gen.PoolSrc Proofs.Pool Proofs.PoolAcct Proofs.PoolH2 Proofs.PoolH2Race Model.PoolAdmit Proofs.PoolAdmit.
 Import ListNotations.
 Open Scope Z_scope.
 
@@ -16,8 +16,8 @@ Definition acct_statement (pol : apolicy) : Prop :=
   forall max_req destroy_oneway ops, let k := mkACfg max_req pol destroy_oneway in let a := arun k ops ainit in
   (* the gauge is the number of admitted-and-not-finished counted requests: never negative *)
   a_active a = Z.of_nat (aactive_count a) /\ 0 <= a_active a /\
-  (* the Requests resource likewise (0 when max_requests = 0: not counted) *)
-  a_req a = (if max_req =? 0 then 0 else a_active a) /\ 0 <= a_req a /\
+  (* the Requests resource likewise, for EVERY max_requests including 0 = unlimited (Increase / Decrease always count) *)
+  a_req a = a_active a /\ 0 <= a_req a /\
   (* nothing is leaked: when every admitted request is finished both are back at zero *)
   ((forall s, (s < a_n a)%nat -> as_live (a_st a s) = false) -> a_active a = 0 /\ a_req a = 0) /\
   (* every increment is matched by exactly one decrement, made when the request finishes *)
@@ -37,6 +37,10 @@ Print Assumptions c10_pool_pingpong_balanced.
 Theorem c10_pool_binding_balanced : acct_statement poolacct_src_binding.
 Proof. exact (fun mr d ops => acct_balanced (mkACfg mr (mkAP true true) d) ops eq_refl). Qed.
 Print Assumptions c10_pool_binding_balanced.
+
+(* resource_manager.go: Increase / Decrease count whatever the limit (read from the source) *)
+Theorem c10_pool_resource_counts_unlimited : poolres_src_counts_unlimited = true.
+Proof. exact (eq_refl true). Qed.
 
 (* a one-way request that was written is finished (the stream layer destroys it): it does not stay on the gauge *)
 Theorem c10_pool_oneway_finishes : poolacct_src_destroy_oneway = true.
@@ -143,3 +147,20 @@ Theorem c10_pool_h2_unlocked_orphan : exists sched, let c := rrun false sched (r
   h_active q = 1 /\ nopen (h_cl q) (h_n q) = 0.
 Proof. exact h2race_unlocked_orphan. Qed.
 Print Assumptions c10_pool_h2_unlocked_orphan.
+
+(* ==== max_requests under CONCURRENT admissions ========================================================================
+   Every pool's NewStream tests Requests().CanCreate() and calls Requests().Increase() later, two separate calls on
+   types.Resource with nothing holding them together (Model/PoolAdmit.v: three callers, limit 1).  The threshold statement
+   "never more admitted requests than max_requests, under every schedule" is REFUTED (two callers both pass the test);
+   reproduced on the real HTTP/1, ping-pong, multiplex and HTTP/2 pools (finder xpool:max-requests-exceeded:concurrent-newstream:
+   <pool>, listed: the repair is an atomic test-and-increment in types.Resource, an interface change across all pools - the same
+   root cause as the listed L4 finding).  Partial: admissions that do not overlap never overshoot; the sequential theorems
+   above and c09_books hold for every history of atomic operations. *)
+Theorem c10_pool_requests_threshold_concurrent_refuted : ~ admit_statement req_cfg.
+Proof. exact req_check_then_increase_refuted. Qed.
+Print Assumptions c10_pool_requests_threshold_concurrent_refuted.
+
+Theorem c10_pool_requests_threshold_serial : forall a b c, (a < 3)%nat -> (b < 3)%nat -> (c < 3)%nat ->
+  admit_good (adrun (serial [a; b; c] 2) req_cfg) = true.
+Proof. exact req_serial_safe. Qed.
+Print Assumptions c10_pool_requests_threshold_serial.
